@@ -733,6 +733,12 @@ def handler (fn : String) : Option Handler :=
       oracle := fun a o => match run (do let p ← pv2; let q' ← pv2; let r ← pv2; let e ← pf; pure (p, q', r, e)) a with
         | some (p, q', r, e) => oracleOrient (q2 p) (q2 q') (q2 r) (q e) o
         | none => "skip bad-args" }
+  | "triangle_orientation" => some {
+      model := fun a => run (do let p ← pv2; let q' ← pv2; let r ← pv2; let e ← pf; pend
+                                pure (fori (triOrientation p q' r e))) a
+      oracle := fun a o => match run (do let p ← pv2; let q' ← pv2; let r ← pv2; let e ← pf; pure (p, q', r, e)) a with
+        | some (p, q', r, e) => oracleOrient (q2 p) (q2 q') (q2 r) (q e) o
+        | none => "skip bad-args" }
   | "segments_intersection2d" | "segments_collinear_vertical" | "segments_collinear_horizontal"
   | "segments_collinear_generic" => some {
       model := fun a => run (do let p ← pv2; let q' ← pv2; let r ← pv2; let s ← pv2; let e ← pf; pend
@@ -785,7 +791,7 @@ def handler (fn : String) : Option Handler :=
           withOut (plist (do let x ← pfo; let y ← pfo; pure (⟨x, y⟩ : V2 Float))) o
             (oracleCvx (p1.map q2) (p2.map q2) (q e))
         | none => "skip bad-args" }
-  | "convex_polygons_intersection_points" | "convex_axis_edge_pair" => some {
+  | "convex_polygons_intersection_points" | "convex_axis_edge_pair" | "convex_large_pair" => some {
       model := fun a => run (do let p1 ← plist pv2; let p2 ← plist pv2; pend
                                 let r := convexPolygonsIntersectionPoints p1.toArray p2.toArray defaultCollinearityEps
                                 pure (r.foldl (fun s v => s ++ " " ++ fv2 v) s!"{r.size}")) a
